@@ -18,6 +18,9 @@ type HRes struct {
 	Hits   []wire.Hit
 	Misses int
 	Err    string // error delivered on the error channel of a get
+	// Proto lists departures from the get-answer protocol: an answer whose quiet flag is not the
+	// one requested for that key, a key answered twice, an answer with an unknown opaque.
+	Proto string
 }
 
 func (r HRes) String() string {
@@ -32,7 +35,7 @@ func (r HRes) String() string {
 			}
 			hs += fmt.Sprintf("{%d %q f=%x ttl=%d}", h.Idx, v, h.Flags, h.TTL)
 		}
-		return fmt.Sprintf("values[%s] misses=%d err=%s", hs, r.Misses, r.Err)
+		return fmt.Sprintf("values[%s] misses=%d err=%s %s", hs, r.Misses, r.Err, r.Proto)
 	}
 	return r.Class + "(" + r.Detail + ")"
 }
@@ -104,15 +107,35 @@ func CallHandlerDeferred(h handlers.Handler, op wire.Op) (res HRes) {
 		for i, k := range keys {
 			req.Keys = append(req.Keys, wire.KeySlice(k, op.Spare))
 			req.Opaques = append(req.Opaques, uint32(100+i))
-			req.Quiet = append(req.Quiet, false)
+			req.Quiet = append(req.Quiet, op.Kind == "mget" && len(op.Quiet) == len(keys) && op.Quiet[i])
 		}
+		req.NoopEnd = op.Kind == "mget" && op.NoopEnd
 		res.Class = "values"
 		idx := func(opq uint32) int { return int(opq) - 100 }
+		answered := make([]int, len(keys))
+		note := func(opq uint32, quiet bool) {
+			i := idx(opq)
+			switch {
+			case i < 0 || i >= len(keys):
+				res.Proto += fmt.Sprintf("unknown-opaque-%d;", opq)
+			default:
+				answered[i]++
+				if answered[i] == 2 {
+					res.Proto += fmt.Sprintf("key-%d-answered-again;", i)
+				}
+				if quiet != req.Quiet[i] {
+					res.Proto += fmt.Sprintf("key-%d-quiet=%v-requested-%v;", i, quiet, req.Quiet[i])
+				}
+			}
+		}
 		if op.Kind == "gete" {
 			rc, ec := h.GetE(req)
 			for rc != nil || ec != nil {
 				select {
 				case r, ok := <-rc:
+					if ok {
+						note(r.Opaque, r.Quiet)
+					}
 					if !ok {
 						rc = nil
 					} else if r.Miss {
@@ -133,6 +156,9 @@ func CallHandlerDeferred(h handlers.Handler, op wire.Op) (res HRes) {
 			for rc != nil || ec != nil {
 				select {
 				case r, ok := <-rc:
+					if ok {
+						note(r.Opaque, r.Quiet)
+					}
 					if !ok {
 						rc = nil
 					} else if r.Miss {
@@ -192,6 +218,9 @@ func DiffH(e, r HRes) (clause, detail string) {
 		}
 		if e.Misses != r.Misses {
 			return "miss-count", fmt.Sprintf("expected %d misses, got %d", e.Misses, r.Misses)
+		}
+		if r.Proto != "" && e.Proto == "" {
+			return "answer-protocol", "the answers of a multi-key get depart from what was asked: " + r.Proto
 		}
 	}
 	return "", ""
